@@ -331,9 +331,6 @@ def run(ctx):
     for kind, wt in others:
         evs = [e for e in small if not (kind == 'single' and e[0] in ('new_key',))]
         cfgs.append({'kind': kind, 'wt': wt, 'seed': seed, 'events': evs})
-    total = 0
-    for n, cfg in enumerate(cfgs):
-        depth = (3 if n == 0 else 3) if q else (4 if n == 0 else 4)
-        total += ctx.bfs('hist', cfg, depth, max_states=6000 if q else 60000)
+    total = ctx.bfs_multi('hist', [(cfg, 3 if q else 4) for cfg in cfgs], max_states=6000 if q else 60000)
     ctx.note('bounds', {'configs': [(c['kind'], c['wt'], len(c['events'])) for c in cfgs], 'depth_quick': 3,
                         'depth_thorough': 4, 'states': total})
